@@ -530,10 +530,13 @@ func c15Case(r *vlib.Run, id string, from base.Height, count, limit int64, fault
 				from, from+base.Height(count)-1, limit, res.err, res.events), replay)
 	case res.err == nil:
 		r.Outcome("success, all stored")
-		if multiple {
+		if multiple || (count > limit && count <= 5) {
 			r.Sample(map[string]any{"case": id, "result": "nil", "last_stored": res.lastStored.Int64(), "events": res.events})
 		}
 	default:
 		r.Outcome("error on fault " + fault.kind)
+		if count == 3 && limit == 2 && fault.pos == 2 {
+			r.Sample(map[string]any{"case": id, "result": res.err.Error(), "last_stored": res.lastStored.Int64(), "events": res.events})
+		}
 	}
 }
